@@ -276,6 +276,12 @@ def subterms(t):
     while stack:
         x = stack.pop()
         if isinstance(x, tuple) and x:
+            if isinstance(x[0], tuple):
+                # a tuple of terms (argument list / field list), not a term itself
+                for y in x:
+                    if isinstance(y, tuple):
+                        stack.append(y)
+                continue
             yield x
             for y in x[1:]:
                 if isinstance(y, tuple):
@@ -328,6 +334,8 @@ def show(t, depth=0):
         return "%s(%s, %s)" % (t[1], s(t[2]), s(t[3]))
     if k == "op1":
         return "%s(%s)" % (t[1], s(t[2]))
+    if k == "asint":
+        return s(t[1])
     return "%s(%s)" % (k, ", ".join(s(a) for a in t[1:]))
 
 
@@ -407,6 +415,8 @@ class Outcome:
     def calls(self, fname=None):
         return [e for e in self.state.events if e[0] == "call" and (fname is None or e[1] == fname)]
 
+
+INT_TY = re.compile(r"^(?:[ui](?:8|16|32|64|128|size))$")
 
 DIVERGE_PANIC = re.compile(r"(panic|unwrap_failed|expect_failed|assert_failed|unreachable_display|panic_bounds_check|"
                            r"slice_(start|end)_index_len_fail|slice_index_order_fail|str_index_overflow_fail|begin_panic|"
@@ -716,6 +726,13 @@ class Executor:
         if k == "binop":
             a = self.operand(st, frame, func, rv[2])
             b = self.operand(st, frame, func, rv[3])
+            ta = self.kind_of_operand_type(func, rv[2]).strip()
+            tb = self.kind_of_operand_type(func, rv[3]).strip()
+            if INT_TY.match(ta) or INT_TY.match(tb):
+                if a[0] != "c" and a[0] != "asint":
+                    a = ("asint", a)
+                if b[0] != "c" and b[0] != "asint":
+                    b = ("asint", b)
             return self.binop(rv[1], a, b)
         if k == "unop":
             a = self.operand(st, frame, func, rv[2])
@@ -1085,7 +1102,9 @@ class Executor:
                     else:
                         outs.append(o)
                 return None
-            xargs = tuple(self.export(st, a) for a in args)
+            # a pointer whose pointee was written/havocked since: pass the current pointee value
+            xargs = tuple(("addr", self.export(st, st.heap[a])) if (a[0] in ("sym", "app", "fld", "out") and a in st.heap)
+                          else self.export(st, a) for a in args)
             res = ("app", fs, xargs)
             # havoc pointees of &mut arguments
             for i, (a, op) in enumerate(zip(args, argops)):
